@@ -123,3 +123,11 @@ package ack
 // format string is pinned: a change of it has to be justified again.
 //@ callsite hashKey -> fmt.Sprintf(format string, a []interface{})
 //@   requires [C04] format == "%s/%d" && len(a) == 2
+
+// C04: what Insert registers is exactly what it was given: the entry carries the caller's deadline, callback and packet, and the
+// timeout is filed under the entry's key with the entry's deadline (an entry registered with another deadline would be swept
+// too early or never)
+//@ callsite (*queue).Insert -> (*queue).push(k gotomic.Hashable, msg message)
+//@   requires [C04] msg.deadline == deadline && msg.pkt == pkt
+//@ callsite (*queue).push -> (expiration.List).Insert(l expiration.List, id interface{}, dl time.Time)
+//@   requires [C04] dl == msg.deadline && id == k
